@@ -1897,14 +1897,20 @@ int fb_gen_c_reader(fb_output_t *out)
     for (ct = out->S->ordered_structs; ct; ct = ct->order) {
             gen_struct(out, ct);
     }
+    /* Union types must come before the tables that refer to them, also when declared later. */
+    for (sym = out->S->symbols; sym; sym = sym->link) {
+        switch (sym->kind) {
+        case fb_is_union:
+            gen_enum(out, (fb_compound_type_t *)sym);
+            break;
+        }
+    }
     for (sym = out->S->symbols; sym; sym = sym->link) {
         switch (sym->kind) {
         case fb_is_enum:
         case fb_is_struct:
-            /* Already generated. */
-            break;
         case fb_is_union:
-            gen_enum(out, (fb_compound_type_t *)sym);
+            /* Already generated. */
             break;
         case fb_is_table:
             gen_table(out, (fb_compound_type_t *)sym);
